@@ -216,6 +216,7 @@ class AbsMachine:
         self.name_hook = name_hook
         self.stmt_hook = stmt_hook
         self.isinstance_fn: Callable[[str, str], bool | None] | None = None
+        self.enum_classes: set[str] = set()
 
     # ---------------------------------------------------------- evaluation
     def ev(self, e: ast.AST, env: Env, chosen: dict[int, Any]) -> Any:
@@ -254,6 +255,8 @@ class AbsMachine:
             r = self._container_call(e, env, chosen)
             if r is not NotImplemented:
                 return r
+            if self.enum_classes and isinstance(e.func, ast.Name) and e.func.id in self.enum_classes and len(e.args) == 1 and not e.keywords:
+                return self.ev(e.args[0], env, chosen)  # Enum(v): transparent on the member set (totality is checked separately)
             if isinstance(e.func, ast.Name) and e.func.id == "len" and len(e.args) == 1:
                 v = self._deref(self.ev(e.args[0], env, chosen), env)
                 if isinstance(v, (AList, ADict)):
@@ -306,6 +309,9 @@ class AbsMachine:
         if isinstance(e, ast.UnaryOp):
             v = self.ev(e.operand, env, chosen)
             if isinstance(e.op, ast.Not):
+                fs = B.to_fields(v) if isinstance(v, (B.BitRec, B.SymBits)) else None
+                if fs is not None and len(fs) == 1 and fs[0][1] == 1 and isinstance(fs[0][2], B.SymBits):
+                    return fs[0][2].negated()  # `not (x & single_bit_mask)` is the complemented bit (as 0/1)
                 t = truth(self._deref(v, env))
                 return UNKNOWN if t is None else (not t)
             if isinstance(e.op, ast.USub) and isinstance(v, (int, float)):
@@ -324,7 +330,16 @@ class AbsMachine:
                     return res
             return res
         if isinstance(e, ast.IfExp):
-            t = truth(self.ev(e.test, env, chosen))
+            tv = self.ev(e.test, env, chosen)
+            t = truth(tv)
+            if t is None and isinstance(tv, B.SymBits) and tv.width == 1:
+                a, b = self.ev(e.body, env, chosen), self.ev(e.orelse, env, chosen)
+                if isinstance(a, int) and isinstance(b, int) and not isinstance(a, bool) and not isinstance(b, bool) and (a == 0) != (b == 0):
+                    m = a | b
+                    if m > 0 and m & (m - 1) == 0:
+                        pos = m.bit_length() - 1
+                        return B.norm([(pos, 1, tv if a else tv.negated())])
+                return UNKNOWN
             if t is None:
                 return UNKNOWN
             return self.ev(e.body if t else e.orelse, env, chosen)
@@ -368,6 +383,19 @@ class AbsMachine:
         if isinstance(op, (ast.NotEq, ast.IsNot)):
             r = sym_eq(a, b)
             return None if r is None else not r
+        if isinstance(a, (B.SymBits, B.BitRec)) and isinstance(b, int) and not isinstance(b, bool) and isinstance(op, (ast.Lt, ast.LtE, ast.Gt, ast.GtE)):
+            lo, hi = B.bounds(a)  # type: ignore[misc]
+            if isinstance(op, ast.Lt):
+                return True if hi < b else (False if lo >= b else None)
+            if isinstance(op, ast.LtE):
+                return True if hi <= b else (False if lo > b else None)
+            if isinstance(op, ast.Gt):
+                return True if lo > b else (False if hi <= b else None)
+            if isinstance(op, ast.GtE):
+                return True if lo >= b else (False if hi < b else None)
+        if isinstance(b, (B.SymBits, B.BitRec)) and isinstance(a, int) and not isinstance(a, bool) and isinstance(op, (ast.Lt, ast.LtE, ast.Gt, ast.GtE)):
+            flip = {ast.Lt: ast.Gt(), ast.LtE: ast.GtE(), ast.Gt: ast.Lt(), ast.GtE: ast.LtE()}[type(op)]
+            return AbsMachine._cmp(flip, b, a)
         if isinstance(op, (ast.In, ast.NotIn)) and isinstance(b, AList):
             b = b.items
         if isinstance(op, (ast.In, ast.NotIn)) and isinstance(b, ADict):
